@@ -33,6 +33,8 @@ PRODS = [(f"attr.{n}", "({0})." + n, 1) for n in POOL] + [
     ("tupidxv", "(({0}), 1)[{1}]", 2), ("tupidxneg", "(({0}), 1)[-1]", 1), ("lstidx", "[({0}), 1][0]", 1),
     ("dictattr", "{{'a': ({0})}}.a", 1), ("dictkey", "{{'a': ({0})}}['a']", 1), ("dictmiss", "{{'a': ({0})}}.b", 1),
     ("dictmisskey", "{{'a': ({0})}}['b']", 1), ("dictzip", "{{'a': ({0})}}.Zip()", 1),
+    ("dictattr.camel", "{{'jetPt': ({0})}}.jetPt", 1), ("dictmiss.case", "{{'pt': ({0})}}.Pt", 1),
+    ("dictkey.camel", "{{'isGood': ({0})}}['isGood']", 1),
     ("none", "None", 0), ("ellipsis", "...", 0), ("bytes", "b'x'", 0), ("cplx", "1j", 0), ("bigint", str(2 ** 70), 0),
     ("fstr", "f'{{({0})}}'", 1), ("starred", "f(*({0}))", 1), ("dstar", "f(**({0}))", 1), ("walrus", "(z := ({0}))", 1),
     ("set", "{{({0}), 1}}", 1), ("attrcall", "({0}).a.b.c(1).d", 1),
@@ -249,7 +251,8 @@ class C10(Check):
                     else:
                         _N[0] += 1
                         fn = f"<c10mod{_N[0]}>"
-                        text = f"def build(ds):\n    return ds.{op}(lambda e: {src})\n"
+                        text = ("e = 2.718281828\ny = 'a module global'\n"
+                                f"def build(ds):\n    return ds.{op}(lambda e: {src})\n")
                         linecache.cache[fn] = (len(text), None, text.splitlines(True), fn)
                         g = {}
                         exec(compile(text, fn, "exec"), g)
@@ -288,8 +291,32 @@ PAIR_MENU = [
 ]
 
 
+SETUPS = [
+    lambda DS: DS().Select("lambda e: e.pt > 30").Where("lambda good: good"),
+    lambda DS: DS().Select("lambda e: {'eta': e.x, 'n': 1}").Select("lambda rec: rec.eta"),
+    lambda DS: DS().Select("lambda e: (e.x, 's')").Select("lambda tup: tup[1]"),
+    lambda DS: DS().Select("lambda e: 1.5").Select("lambda num: num + 1").Where("lambda num: num > 1"),
+]
+AFTER_SETUP = ["rec.other + e.eta", "good.x", "tup[5]", "num.y if e.c else e.d", "rec['zz']", "e.f(good, rec, tup, num)"]
+
+
+def _run_setup(self, k):
+    from func_adl import EventDataset
+
+    class DS(EventDataset):
+        async def execute_result_async(self, a, title=None):
+            return a
+
+    SETUPS[k](DS)
+    return {"n": 1, "nt": [], "oc": ["setup"], "tags": {}, "viol": []}
+
+
 def _pair_menu(self, tier):
-    return [("expressions", "run_expr", s) for s in PAIR_MENU]
+    return [("expressions", "run_expr", s) for s in PAIR_MENU + AFTER_SETUP] + \
+        [("setup", "run_setup", k) for k in range(len(SETUPS))]
+
+
+C10.run_setup = _run_setup
 
 
 C10.pair_menu = _pair_menu
